@@ -91,7 +91,10 @@ def opt(p0, data, model_func, pts, multinom=True,
     upper_bound = [_ if _ is not None else np.inf for _ in upper_bound]
 
     if log_opt:
-        lower_bound, upper_bound = np.log(lower_bound), np.log(upper_bound)
+        # Parameters are positive here: a missing, zero or negative lower bound
+        # is no bound at all (its log would be nan).
+        lower_bound = np.log(np.maximum(lower_bound, 0))
+        upper_bound = np.log(upper_bound)
 
     p0 = _project_params_down(p0, fixed_params)
 
